@@ -34,12 +34,22 @@ def group_of(key):
         for p in pats:
             if re.match(p, key):
                 return g
+    # the patterns spell the lifetime parameters of the reviewed impl headers (`CrcModifier<'a, B, u8>`); an impl header that elides or
+    # renames them (`CrcModifier<'_, B, u8>`) is the same impl
+    if "'" in key:
+        for lt in ("'a", "'de"):
+            k2 = re.sub(r"'\w+", lt, key)
+            if k2 != key:
+                for g, pats in GROUPS.items():
+                    for p in pats:
+                        if re.match(p, k2):
+                            return g
     return None
 
 
 def short_key(k):
     """key with the module paths of its types dropped: `<ser::flavors::Cobs<B> as ->::try_new` -> `<Cobs<B> as ->::try_new`"""
-    return re.sub(r"\b(?:[a-z_][a-z0-9_]*::)+(?=[A-Z<&\[(])", "", k)
+    return re.sub(r"'\w+", "'_", re.sub(r"\b(?:[a-z_][a-z0-9_]*::)+(?=[A-Z<&\[(])", "", k))
 
 
 def specified(f):
@@ -105,7 +115,8 @@ def check_group2(run, rule, F, crate, group, expect, only=None, what=None):
             cands = [g for g in crate.fns if specified(g) and short_key(summ.fn_key(g)) == short_key(key) and summ.fn_key(g) not in expect.get(group, {})]
             if len(cands) == 1:
                 f = cands[0]
-                run.note("%s is now %s (type moved between modules)" % (key, summ.fn_key(f)))
+                served.add(summ.fn_key(f))
+                run.note("%s is now %s (type moved between modules / lifetime names changed)" % (key, summ.fn_key(f)))
         subst = None
         if f is None and key.startswith("<"):
             f, subst = generic_instance(crate, key, expect.get(group, {}))
